@@ -414,6 +414,45 @@ func genC05(c *Ctx) {
 			}
 		}
 	}
+	// scale: long flat chains and deep nests are derivable, whatever their length
+	sz := []int{17, 33, 65, 66, 101, 130, 257}
+	if c.thorough() {
+		sz = append(sz, 513, 1025, 2049)
+	}
+	var big []*Tree
+	big = append(big, distinctChains(sz)...)
+	big = append(big, scaleTrees(c.rng, c.thorough())...)
+	for _, t := range big {
+		for _, st := range []int{0, 1} {
+			e := t.render(st, c.rng)
+			c.count("scale_expressions")
+			if r := c.V(e); r != unknown && r != "1" {
+				c.fail("ValidateLicenses", []string{e}, r, "1", "derivable from the grammar (long chain / deep nest of valid terms)")
+			}
+			for _, bad := range []string{e + " AND", e + " MIT", "(" + e, e + ")"} {
+				if r := c.V(bad); r != unknown && r != "0" {
+					c.fail("ValidateLicenses", []string{bad}, r, "0", "not derivable: dangling operator / adjacent terms / unbalanced parenthesis after a long valid expression")
+				}
+			}
+		}
+	}
+	// every byte value inside / next to an identifier
+	for b := 0; b < 256; b++ {
+		for _, tpl := range sweepRefTemplates {
+			x := fmt.Sprintf(tpl, string([]byte{byte(b)}))
+			want := "0"
+			if isIDByte(byte(b)) {
+				want = "1"
+			}
+			c.count("byte_sweep")
+			if r := c.V(x); r != unknown && r != want {
+				c.fail("ValidateLicenses", []string{x}, r, want, "a reference name is valid iff every byte of it is a letter, a digit, '-' or '.'")
+			}
+		}
+		for _, tpl := range sweepOtherTemplates {
+			c.V(fmt.Sprintf(tpl, string([]byte{byte(b)})))
+		}
+	}
 	// named rejection classes and documented acceptances
 	for s, want := range map[string]string{
 		"MIT": "1", "mit": "1", "MIT AND Apache-2.0": "1", "MIT and Apache-2.0": "0", "MIT OR": "0", "MIT AND AND ISC": "0",
@@ -834,6 +873,36 @@ func genC10(c *Ctx) {
 				if r1 != unknown && r2 != unknown && r1+fmt.Sprint(s1) != r2+fmt.Sprint(s2) {
 					c.fail("ExtractLicenses", map[string]interface{}{"expression": e1, "expression_variant": e2}, fmt.Sprint(s1)+" vs "+fmt.Sprint(s2), "equal sets", "term-preserving rewrite")
 				}
+			}
+		}
+	}
+	// seeded deep trees: operand order and regrouping at nesting depth 3+, seeded assignments
+	nd := 1200
+	if c.thorough() {
+		nd = 12000
+	}
+	for _, t := range deepTrees(c.rng, nd) {
+		e1 := t.render(0, c.rng)
+		t2 := t
+		for s := 1 + c.rng.Intn(3); s > 0; s-- {
+			t2, _ = rewrite(c.rng, t2, leafPool)
+		}
+		e2 := t2.render(c.rng.Intn(5), c.rng)
+		c.count("deep_rewritten_pairs")
+		ls := uniq(t.leaves())
+		for q := 0; q < 4; q++ {
+			var A []string
+			for _, l := range ls {
+				if c.rng.Intn(2) == 0 {
+					A = append(A, l)
+				}
+			}
+			if len(A) == 0 {
+				A = []string{"CC0-1.0"}
+			}
+			r1, r2 := c.S(e1, A), c.S(e2, A)
+			if r1 != unknown && r2 != unknown && r1 != r2 {
+				c.fail("Satisfies", map[string]interface{}{"expression": e1, "expression_variant": e2, "allowed": A}, r1+" vs "+r2, "equal", "both expressions denote the same Boolean function of the same terms (deep tree)")
 			}
 		}
 	}
